@@ -354,6 +354,17 @@ def gen_Misc3Tables() -> None:
     out.append(f"/-- `{SBMISC}::BcdVersion3.DEFAULT`{tag(err)} -/")
     out.append(f"def bcdDefault : List Char := {_chars(dv)}\n")
 
+    def bcd_alphabet():
+        fn = find_function(parse(SBMISC), "BcdVersion3._num_from_str")
+        hits = [n for n in ast.walk(fn) if isinstance(n, ast.Compare) and len(n.ops) == 1 and isinstance(n.ops[0], (ast.NotIn, ast.In))
+                and isinstance(n.comparators[0], ast.Constant) and isinstance(n.comparators[0].value, str)]
+        if len(hits) != 1:
+            raise ValueError("expected exactly one `char [not] in \"…\"` test in _num_from_str")
+        return hits[0].comparators[0].value
+    alpha, err = guard("BCD_ALPHABET", bcd_alphabet, "")
+    out.append(f"/-- `{SBMISC}::BcdVersion3._num_from_str`: the characters a component may consist of{tag(err)} -/")
+    out.append(f"def bcdNumAlphabet : List Char := {_chars(alpha)}\n")
+
     def units():
         me = ModuleEnv(parse(MISC))
         v = me.cls("Timeout").value("UNITS")
